@@ -157,6 +157,46 @@ def batch_alias(ev, mods, imps, subjects, acc):
             HUB.violation("C12", f"alias-batch:{d}", f"'should not ... anything' gave {a}, 'should not ... except themselves' gave {b} for subjects {subjects}", {"case": HUB.case})
 
 
+def regex_family(ev, mods, imps, rx, o, acc):
+    """Duality and decomposition also hold when one side is given by a regex (a batch): the subject of
+    'S should import O' is the importer, the subject of 'O should be imported by S' the importee."""
+    import re as _re
+
+    s = ("regex", rx)
+    if not any(_re.match(rx, m) for m in mods):
+        return
+    case = {"kind": "regex_family", "mods": mods, "imps": imps, "rx": rx, "o": o}
+    HUB.case = case
+    out = {}
+    for verb in rrule.VERBS:
+        for d in rrule.DIRS:
+            for exc in (False, True):
+                out[("so", verb, d, exc)] = run(mk_rule(cfg_of(verb, d, exc, s, o)), ev)[0]
+                acc.evaluated()
+    for verb in ("should", "should_not"):
+        for d in rrule.DIRS:
+            out[("os", verb, d)] = run(mk_rule(cfg_of(verb, d, False, o, s)), ev)[0]
+            acc.evaluated()
+    acc.count("regex_families")
+    if any(v.startswith("error") for v in out.values()):
+        if not all(v.startswith("error") for v in out.values()):
+            HUB.violation("C12", "regex-family-partial-error", "some rules of one regex family raised, others gave verdicts", {"case": case, "outcomes": {str(k): v for k, v in out.items()}})
+        return
+    w = {"case": case, "outcomes": {str(k): v for k, v in out.items()}}
+    for verb in ("should", "should_not"):
+        acc.count("law_duality", 2)
+        if out[("so", verb, "import", False)] != out[("os", verb, "be")]:
+            HUB.violation("C12", f"duality:{verb}:regex-subject", f"'S {verb} import O' and 'O {verb} be imported by S' differ for a regex S", w)
+        if out[("so", verb, "be", False)] != out[("os", verb, "import")]:
+            HUB.violation("C12", f"duality:{verb}:regex-subject", f"'S {verb} be imported by O' and 'O {verb} import S' differ for a regex S", w)
+    for d in rrule.DIRS:
+        acc.count("law_decomposition", 2)
+        if (out[("so", "should_only", d, False)] == "pass") != (out[("so", "should", d, False)] == "pass" and out[("so", "should_not", d, True)] == "pass"):
+            HUB.violation("C12", f"decomposition:should_only:{d}:regex-subject", "'should only' differs from 'should' and 'should not ... except' for a regex subject", w)
+        if (out[("so", "should_only", d, True)] == "pass") != (out[("so", "should", d, True)] == "pass" and out[("so", "should_not", d, False)] == "pass"):
+            HUB.violation("C12", f"decomposition:should_only_except:{d}:regex-subject", "'should only ... except' differs from its decomposition for a regex subject", w)
+
+
 def one_family(ev, mods, imps, s, o, acc, fid, mono_edges):
     out = eval_family(ev, mods, imps, s, o, acc, fid)
     acc.count("families")
@@ -245,6 +285,13 @@ def randomised(spec, acc):
             batch = pick_unrelated(rnd, mods, rnd.randint(2, 3), kind=kind)
             if len(batch) >= 2:
                 batch_alias(ev, mods, imps, [(kind, b) for b in batch], acc)
+            if rnd.random() < 0.5:
+                import re as _re
+
+                names = [m for m in mods if m != "r"]
+                m = rnd.choice(names)
+                rx = rnd.choice([_re.escape(m) + r"(\..*)?$", _re.escape(m) + r"(\.[a-z_]+)?$", _re.escape(m.rsplit(".", 1)[0]) + r"\.[a-z_]+$"])
+                regex_family(ev, mods, imps, rx, rnd.choice(fs), acc)
             n += 1
             if n % 97 == 1:
                 acc.sample({"kind": "family", "modules": mods, "imports": imps, "subject": s, "object": o, "added_for_monotonicity": edges})
@@ -253,6 +300,9 @@ def randomised(spec, acc):
 def replay(case, acc):
     mods = case["mods"]
     imps = [tuple(i) for i in case["imps"]]
+    if case["kind"] == "regex_family":
+        regex_family(build(mods, imps), mods, imps, case["rx"], tuple(case["o"]), acc)
+        return
     if case["kind"] == "batch_alias":
         batch_alias(build(mods, imps), mods, imps, [tuple(x) for x in case["subjects"]], acc)
         return
